@@ -39,6 +39,9 @@ class Engine:
         product.payoff_underlying.check_consistency(
             process_dimension=self.process.dimension()
         )
+        if self.configuration.nb_of_processes == 1:
+            # seed once per run and before any variate is drawn: the pre-computation below already draws some
+            self.configuration.initialisation_seed()
         product.update(self.process.process_representation)
         if not isinstance(self.configuration.control_variates, NoControlVariates):
             for cv_product in self.configuration.control_variates.products:
@@ -112,8 +115,7 @@ class Engine:
 
         # Monte-Carlo loop
         if nb_of_processes == 1:
-            # single process version
-            self.configuration.initialisation_seed()
+            # single process version (the generators have been seeded in `initialisation`)
             for iteration in range(mc_paths):
                 simulated_path = simulate_one_path()
                 # process the path: compute the payoff and discount it
